@@ -93,6 +93,7 @@ def _swarm_feat(cfg):
     f["rtcalls"] = cfg.random() < 0.6
     f["rec_builtin"] = cfg.random() < 0.4
     f["joins"] = cfg.random() < 0.4
+    f["phelpers"] = cfg.random() < 0.2
     f["pathspell"] = cfg.random() < 0.15
     f["shadows"] = cfg.random() < 0.3
     f["vardefaults"] = f["defaults"] and cfg.random() < 0.4
@@ -129,6 +130,11 @@ def gen_program(rng, feat):
              "pad": 0, "body": [], "comment": 0, "end": bool(feat.get("end_markers"))}
         if kind == "class":
             f["ret"] = "tuple"
+        if kind == "plain" and i > 0 and feat.get("phelpers") and rng.random() < 0.4:
+            # a plain helper with one parameter: its callers pass a local (a call with a run-time argument that is
+            # not a keep); its own kept calls bind literals only
+            f["params"] = [["x", ir.NODEFAULT]]
+            f["phelper"] = True
         if f["ret"] == "str":
             f["eol"] = rng.choice(["", "", "\r\n", "\r", "\n", "a\r\nb\rc\n"])
         if kind == "data":
@@ -286,12 +292,14 @@ def _add_ref(prog, caller, callee, rng, feat, paths):
             rt = feat["rt_args"] and rng.random() < (0.7 if any(ir.default_var(d2) for (_, d2) in g["params"]) else 0.4)
             if lay and len(g["params"]) > 1:
                 rt = False      # (the last bound argument becomes the run-time one, below)
+            if c.get("phelper"):
+                rt = False
             if kwmode or (feat["kwargs"] and rng.random() < 0.3):
                 kwmode = True
                 it["args"].append({"k": "kwrt", "n": pn, "e": "?"} if rt else {"k": "kw", "n": pn, "v": _lit(rng, feat)})
             else:
                 it["args"].append({"k": "rt", "e": "?"} if rt else {"k": "lit", "v": _lit(rng, feat)})
-        if lay and len(it["args"]) > 1:
+        if lay and len(it["args"]) > 1 and not c.get("phelper"):
             # literal arguments first, the run-time one on the last line of the call
             a = it["args"][-1]
             if a["k"] == "lit":
@@ -304,6 +312,8 @@ def _add_ref(prog, caller, callee, rng, feat, paths):
                           "carg": _lit(rng, feat)})
     elif g["kind"] == "data":
         c["body"].append({"t": "call", "f": callee, "form": form})
+    elif g.get("phelper"):
+        c["body"].append({"t": "call", "f": callee, "form": form, "rtarg": "?"})
     else:
         if feat.get("wraps") and rng.random() < 0.3 and form in ("direct", "from", "alias"):
             c["body"].append({"t": "call", "f": callee, "form": form, "wrap": rng.choice(["kw", "pos", "chain", "hokw"])})
@@ -319,11 +329,14 @@ def _fix_rt_refs(prog, rng, feat):
     when neither exists the argument becomes a literal."""
     for fn, f in prog["funcs"].items():
         for i, it in enumerate(f["body"]):
+            if it["t"] == "call" and it.get("rtarg") is not None:
+                avail = [f"r{j}" for j in range(i)] + [p for (p, _) in f["params"]]
+                it["rtarg"] = rng.choice(avail) if avail else repr(_lit(rng, feat))
             if it["t"] != "keep":
                 continue
             avail = [f"r{j}" for j in range(i)] + [p for (p, _) in f["params"]]
             mods = prog["mods"]
-            helpers = [h for h, hf in sorted(prog["funcs"].items()) if hf["kind"] == "plain" and not hf.get("ill")
+            helpers = [h for h, hf in sorted(prog["funcs"].items()) if hf["kind"] == "plain" and not hf.get("ill") and not hf["params"]
                        and int(h[1:]) > int(fn[1:]) and h != it["f"] and mods.index(hf["mod"]) >= mods.index(f["mod"])
                        and not _contains_keeps(prog, h)] if feat.get("rtcalls") and fn[1:].isdigit() else []
             for a in it["args"]:
@@ -373,6 +386,9 @@ def renumber_rt(prog):
     re-pointed to the closest earlier local (or turned into literals)."""
     for fn, f in prog["funcs"].items():
         for i, it in enumerate(f["body"]):
+            x = it.get("rtarg") if it["t"] == "call" else None
+            if isinstance(x, str) and x.startswith("r") and x[1:].isdigit() and int(x[1:]) >= i:
+                it["rtarg"] = f"r{i - 1}" if i > 0 else ([p for (p, _) in f["params"]] or ["1"])[0]
             if it["t"] != "keep":
                 continue
             params = [p for (p, _) in f["params"]]
@@ -400,7 +416,7 @@ def renumber_rt(prog):
 def entries(prog):
     """Functions that can be evaluated from the driver: zero-parameter plain or data functions."""
     return [fn for fn in sorted(prog["funcs"]) if prog["funcs"][fn]["kind"] in ("plain", "data")
-            and not prog["funcs"][fn].get("ill")]
+            and not prog["funcs"][fn].get("ill") and all(d != ir.NODEFAULT for (_, d) in prog["funcs"][fn]["params"])]
 
 
 def _ill_fn(prog, name, mod, kind="plain", params=None, path=None):
@@ -724,6 +740,9 @@ def apply_edit(prog, e):
                         x = a.get("e")
                         if isinstance(x, str) and x.startswith("r") and x[1:].isdigit():
                             a["e"] = f"r{int(x[1:]) + 1}"
+                    x = it.get("rtarg")
+                    if isinstance(x, str) and x.startswith("r") and x[1:].isdigit():
+                        it["rtarg"] = f"r{int(x[1:]) + 1}"
             else:
                 f["body"].append({"t": "load", "path": e["path"]})
         elif k == "default":
